@@ -219,3 +219,17 @@ MUTANTS += [
              "            carry = acc_int[min(i0 + 2500, len(terms)) - 1]\n",
          why="CORRECT blocked running sum of |a| dt (carry = last value of the previous block): must not be reported"),
 ]
+
+# ---- narrow integer records (raw digitiser counts): reverts of the repository repairs 2c04324 and b611071
+MUTANTS += [
+    dict(id="c09-revert-2c04324-init", prop="C09", file="eqsig/single.py",
+         old="        self._values = _float_array(values)\n", new="        self._values = np.array(values)\n",
+         why="reverts repo fix 2c04324 in Signal.__init__: an int16 / int32 / int8 record is kept in its dtype (np.abs of the most negative "
+             "sample and the squares wrap around)"),
+    dict(id="c09-revert-2c04324-reset", prop="C09", file="eqsig/single.py",
+         old="        self._values = _float_array(new_values)\n", new="        self._values = np.array(new_values)\n",
+         why="reverts repo fix 2c04324 in Signal.reset_values: replacing the values by an int16 record keeps the dtype"),
+    dict(id="c09-a2-arias-no-asarray", prop="C09", file="eqsig/im.py", old=_ARIAS_OLD,
+         new="    return np.pi / (2 * 9.81) * cumulative_trapezoid(acc ** 2, dx=dt, initial=0)",
+         why="audit 5.2: reverts repo fix b611071 (squares of an int16 / int32 array wrap around, a list raises) in the array-level Arias helper"),
+]
